@@ -209,7 +209,7 @@ func (tg *treeGen) atom() *gx {
 	case 5:
 		return &gx{kind: "atom", text: "(sp " + hx("$this") + ")", toks: []string{"$this"}}
 	case 6:
-		n := Pick(r, []string{"name", "given", "id", "active", "`div`", "contains", "as"})
+		n := Pick(r, []string{"name", "given", "id", "active", "`div`", "contains", "as", "Patient", "Patient"})
 		return &gx{kind: "atom", text: "(m " + hx(n) + ")", toks: []string{n}}
 	case 7:
 		n, u := fmt.Sprint(1+r.Intn(9)), Pick(r, []string{"'mg'", "days", "year"})
@@ -234,6 +234,81 @@ func (tg *treeGen) invocation(d int) *gx {
 	}
 	n := Pick(r, []string{"name", "given", "family", "id", "value"})
 	return &gx{kind: "atom", text: "(m " + hx(n) + ")", toks: []string{n}}
+}
+
+// ---- trees that evaluate: paths rooted at the resource type name or relative to the focus,
+// criteria functions whose arguments mention the type name again, comparisons and connectives.
+// (The random trees above mostly fail to evaluate; these reach the evaluator's handling of
+// parentheses, operand position and function arguments.)
+func mAtom(n string) *gx { return &gx{kind: "atom", text: "(m " + hx(n) + ")", toks: []string{n}} }
+func litAtom(t string) *gx {
+	return &gx{kind: "atom", text: "(lit " + hx(t) + ")", toks: []string{t}}
+}
+func dotOf(l, inv *gx) *gx { return &gx{kind: "dot", kids: []*gx{l, inv}} }
+
+func (tg *treeGen) semPath(d int) *gx {
+	r := tg.r
+	var cur *gx
+	kind := "Patient"
+	switch r.Intn(4) {
+	case 0:
+		cur, kind = mAtom("name"), "name"
+	case 1:
+		cur, kind = &gx{kind: "atom", text: "(sp " + hx("$this") + ")", toks: []string{"$this"}}, "any"
+	default:
+		cur = mAtom("Patient")
+	}
+	for k := r.Intn(3); k >= 0; k-- {
+		switch kind {
+		case "Patient":
+			n := Pick(r, []string{"name", "name", "active", "id"})
+			cur, kind = dotOf(cur, mAtom(n)), n
+		case "name":
+			n := Pick(r, []string{"given", "family"})
+			cur, kind = dotOf(cur, mAtom(n)), "string"
+		}
+	}
+	if d > 0 && r.Intn(2) == 0 {
+		switch r.Intn(5) {
+		case 0:
+			cur = dotOf(cur, &gx{kind: "call", text: Pick(r, []string{"first", "exists", "count", "empty"})})
+		case 1:
+			cur = dotOf(cur, &gx{kind: "call", text: Pick(r, []string{"where", "exists", "all"}), kids: []*gx{tg.semPred(d - 1)}})
+		case 2:
+			cur = dotOf(cur, &gx{kind: "call", text: "select", kids: []*gx{tg.semPath(d - 1)}})
+		case 3:
+			cur = &gx{kind: "idx", kids: []*gx{cur, litAtom(fmt.Sprint(r.Intn(2)))}}
+		default:
+			cur = dotOf(cur, &gx{kind: "call", text: "exists", kids: []*gx{dotOf(mAtom("Patient"), mAtom(Pick(r, []string{"active", "id", "name"})))}})
+		}
+	}
+	return cur
+}
+
+func (tg *treeGen) semPred(d int) *gx {
+	r := tg.r
+	if d <= 0 || r.Intn(3) == 0 {
+		switch r.Intn(4) {
+		case 0:
+			return dotOf(tg.semPath(0), &gx{kind: "call", text: Pick(r, []string{"exists", "empty"})})
+		case 1:
+			return &gx{kind: "bin", text: Pick(r, []string{"=", "!="}), kids: []*gx{tg.semPath(0), litAtom(Pick(r, []string{"'a'", "'Smith'", "true", "'p'"}))}}
+		case 2:
+			return dotOf(mAtom("Patient"), mAtom("active"))
+		}
+		return litAtom(Pick(r, []string{"true", "false"}))
+	}
+	switch r.Intn(5) {
+	case 0:
+		return &gx{kind: "bin", text: Pick(r, []string{"and", "or", "xor", "implies"}), kids: []*gx{tg.semPred(d - 1), tg.semPred(d - 1)}}
+	case 1:
+		return &gx{kind: "bin", text: Pick(r, []string{"=", "!="}), kids: []*gx{tg.semPath(d - 1), tg.semPath(d - 1)}}
+	case 2:
+		return dotOf(tg.semPath(d-1), &gx{kind: "call", text: Pick(r, []string{"exists", "all"}), kids: []*gx{tg.semPred(d - 1)}})
+	case 3:
+		return &gx{kind: "call", text: "iif", kids: []*gx{tg.semPred(d - 1), tg.semPred(d - 1)}}
+	}
+	return &gx{kind: "bin", text: Pick(r, []string{"and", "or"}), kids: []*gx{dotOf(tg.semPath(d-1), &gx{kind: "call", text: "exists"}), tg.semPred(d - 1)}}
 }
 
 var binOps = []string{"implies", "or", "xor", "and", "in", "contains", "=", "~", "!=", "!~", "<", "<=", ">", ">=", "|", "+", "-", "&", "*", "/", "div", "mod"}
@@ -345,7 +420,7 @@ func synDump(src string) string {
 }
 
 func runC11(c *Ctx) {
-	c.meta.Rule = "random expression trees of depth <= 6 over all 13 precedence levels (invocation, indexer, polarity, multiplicative, additive incl. &, type, union, inequality, equality, membership, and, or/xor, implies), function arguments, indexers, quantities, dates, delimited and keyword identifiers; renderings: minimal parentheses, full parentheses, each with token-gap decorations from {'', ' ', newline, tab, block comment, line comment, doubled}; plus trailing tokens, byte-mutated sources and 38 sources in which a type operator is followed by a tighter operator, an indexer or an invocation (ANTLR treats it as a suffix), and 78 sources whose tokens touch (token boundaries); non-trivial = source with at least one operator; distinct by line"
+	c.meta.Rule = "random expression trees of depth <= 6 (one third of them built to evaluate: paths rooted at the type name or the focus, criteria functions whose arguments mention the type name again, connectives) over all 13 precedence levels (invocation, indexer, polarity, multiplicative, additive incl. &, type, union, inequality, equality, membership, and, or/xor, implies), function arguments, indexers, quantities, dates, delimited and keyword identifiers; renderings: minimal parentheses, full parentheses, each with token-gap decorations from {'', ' ', newline, tab, block comment, line comment, doubled}; plus trailing tokens, byte-mutated sources and 38 sources in which a type operator is followed by a tighter operator, an indexer or an invocation (ANTLR treats it as a suffix), and 78 sources whose tokens touch (token boundaries); non-trivial = source with at least one operator; distinct by line"
 	n := 500
 	if c.thorough {
 		n = 6000
@@ -373,6 +448,15 @@ func runC11(c *Ctx) {
 	for i := 0; i < n; i++ {
 		tg := &treeGen{r: c.rng, supported: i%2 == 0}
 		t := tg.gen(1 + c.rng.Intn(6))
+		if i%3 == 2 {
+			// an evaluating tree
+			if c.rng.Bool() {
+				t = tg.semPath(1 + c.rng.Intn(3))
+			} else {
+				t = tg.semPred(1 + c.rng.Intn(3))
+			}
+			c.Count("tree:evaluating")
+		}
 		minT, fullT := t.tokens(false, 0), t.tokens(true, 0)
 		plain := func() string { return "" }
 		deco := func() string { return Pick(c.rng, gapDecor) }
